@@ -36,7 +36,7 @@ structure Variants where
 deriving DecidableEq, Repr
 
 /-- THE switch: flip a field to `.fixed` when the corresponding fix patch is applied to the tree. -/
-def active : Variants := { validateFirst := .pinned, dropStale := .pinned, inOrder := .pinned }
+def active : Variants := { validateFirst := .fixed, dropStale := .fixed, inOrder := .fixed }
 def allPinned : Variants := { validateFirst := .pinned, dropStale := .pinned, inOrder := .pinned }
 def allFixed : Variants := { validateFirst := .fixed, dropStale := .fixed, inOrder := .fixed }
 
